@@ -92,6 +92,14 @@ async def reconcile_workflow(
     )
 
 
+def _error_text(error: BaseException | None) -> str:
+    # Building a message must never raise: an exception's own __str__ can.
+    try:
+        return f"{error}"
+    except Exception:
+        return f"<{type(error).__name__}>"
+
+
 class StepResult(NamedTuple):
     result: result.UnwrappedOutcome[celtypes.Value]
     resource_ids: ResourceIds = None
@@ -172,7 +180,7 @@ async def _reconcile_steps(
         elif task.exception() is not None:
             error_outcome = StepResult(
                 result=result.Retry(
-                    message=f"Unknown error ({task.exception()}) running Step ({task_name}), will retry.",
+                    message=f"Unknown error ({_error_text(task.exception())}) running Step ({task_name}), will retry.",
                     delay=UNKNOWN_ERROR_RETRY_DELAY,
                     location=workflow_key,
                 )
@@ -632,7 +640,7 @@ async def _for_each_reconciler(
             outcomes.append(
                 StepResult(
                     result=result.Retry(
-                        message=f"Error ({task.exception()}) running Step ({task_name}), will retry.",
+                        message=f"Error ({_error_text(task.exception())}) running Step ({task_name}), will retry.",
                         delay=UNKNOWN_ERROR_RETRY_DELAY,
                         location=workflow_key,
                     )
